@@ -5,7 +5,7 @@ use core::ops::ControlFlow;
 use super::common::*;
 use super::super::state::PortState;
 use super::super::*;
-use crate::datastructures::common::{TlvSet, TlvType};
+use crate::datastructures::common::{ClockIdentity, TlvSet, TlvType};
 use crate::datastructures::messages::{AnnounceMessage, DelayRespMessage, FollowUpMessage, Header, Message, MessageBody, SyncMessage};
 use crate::verif_root::gen::*;
 use crate::verif_root::refcodec::*;
@@ -26,7 +26,7 @@ fn setup<'a>(state: &'a DepthCell, remote: PortIdentity) -> (RPort<'a>, PortCfg,
 // @tier quick
 // @variant dl128_lists2
 // @timeout 1800
-// @mem 14
+// @mem 13
 // @functions Port::parse_and_filter, is_compatible, Message::deserialize, Header::deserialize_header
 // @bounds frames of 0..=44 symbolic octets (every message type nibble, flags, lengths; complete Sync / Delay_Req / Follow_Up / Pdelay_Req frames, every other type only as a truncated frame), symbolic buffer length; arbitrary instance domain / sdoId; concrete listening port (parse_and_filter does not read the port state; 64-octet frames on a port in an arbitrary state: c07_gate, thorough tier)
 // @assume frames longer than 64 octets differ only by more iterations of the TLV loop (decided separately under C04 up to 76 octets)
@@ -142,7 +142,7 @@ fn c07_announce_rejected() {
 // @tier quick
 // @variant lists2
 // @timeout 1500
-// @mem 14
+// @mem 15
 // @functions Port::handle_sync, Port::handle_follow_up, Port::handle_delay_resp
 // @bounds a port in Faulty / Listening / Master / Passive with arbitrary small state; fully symbolic Sync, Follow_Up and Delay_Resp (any source), arbitrary receive time
 #[kani::proof]
@@ -543,7 +543,7 @@ fn c15_path_trace_over_capacity() { path_trace_case(17, None) }
 // @variant lists2
 // @stubbing yes
 // @timeout 1500
-// @mem 12
+// @mem 10
 // @functions Port::handle_announce (S1 data set update)
 // @bounds slave port, Announce from the parent with stepsRemoved = 65535 (all other fields symbolic)
 // @assume stubs as in c11_handle_announce
